@@ -1733,6 +1733,13 @@ func (g *gen) function(name string, index int, params []Param, results []*Ty, na
 			// like the shipped named_return*.mpcl programs: every named result is
 			// assigned before anything reads it
 			hidden := g.vars[np:]
+			if g.opts.globals > 0 {
+				// own copy: the g.declare below appends to g.vars[:np] and would overwrite
+				// the hidden entries (in the declaration-free modes that only makes the
+				// generator forget a named result; here a forgotten result of the name of
+				// a package-level declaration would look unshadowed)
+				hidden = append([]gvar(nil), hidden...)
+			}
 			g.vars = g.vars[:np]
 			var pre []*Stmt
 			for i, rn := range f.Named {
